@@ -19,7 +19,7 @@ EXPLANATION = (
     "split-table expansion is interpreted on all 288 consistent split tables for n<=5; callers forward the "
     "direction they document and the optional global parameter under an identity test.")
 ASSUMPTIONS = ["the cost matrix is read only through D (checked: initialisation copies the upper triangle)"]
-TECHNIQUE = "finite ordering/constant domains interpreted over the AST (F4), affine loop ranges (F3), parameter liveness (F7)"
+TECHNIQUE = "abstract interpretation of optimalPartition / backward / backtracking and of the delegation chain simplify -> optimalSimplification -> optimalSegmentation by the checker's AST interpreter with a numpy array model: every weak ordering of the candidate-list sums for n = 3, 4 (four embeddings, costs of either sign), every list the unique optimum for n = 2..6, all 303 consistent split tables, uint8 matrices, recorded direction / matrix / parameter of the chain (bounded case domains)"
 
 
 def vr(v):
